@@ -81,7 +81,7 @@ package quic
 //@   props C15
 //@   requires m.maxStream >= -1
 //@   ensures [once] m.blockedSent
-//@   ensures [frame-iff] iff(called("fnvalue") == 1, !old(m.blockedSent))
+//@   ensures [frame-iff] iff(called("field:queueStreamIDBlocked") == 1, !old(m.blockedSent))
 //@   modifies m.blockedSent
 
 //@ func (m *outgoingStreamsMap[T]) OpenStream
@@ -154,3 +154,26 @@ package quic
 //@   requires m.smInv() && 0 <= f.MaxStreamNum && f.MaxStreamNum <= 1152921504606846976 && (f.Type == protocol.StreamTypeUni || f.Type == protocol.StreamTypeBidi)
 //@   ensures [monotone] m.outgoingUniStreams.maxStream >= old(m.outgoingUniStreams.maxStream) && m.outgoingBidiStreams.maxStream >= old(m.outgoingBidiStreams.maxStream)
 //@   modifies m.outgoingUniStreams.maxStream, m.outgoingUniStreams.blockedSent, m.outgoingBidiStreams.maxStream, m.outgoingBidiStreams.blockedSent
+
+// ---------------- connection ID manager (C16, C12) ----------------
+//@ pred (h *connIDManager) qInv() =
+//@      forall2(j, k, 0, len(h.queue), h.queue[j].SequenceNumber < h.queue[k].SequenceNumber, trig(h.queue, j), trig(h.queue, k))
+
+//@ func (h *connIDManager) assertNotClosed
+//@   props C16
+//@   panics when h.closed
+//@   modifies nothing
+
+//@ func (h *connIDManager) addConnectionID
+//@   props C16
+//@   requires h.qInv()
+//@   ensures [inv] h.qInv()
+//@   ensures [queued] implies(result == nil, exists(k, 0, len(h.queue), h.queue[k].SequenceNumber == seq, trig(h.queue, k)))
+//@   ensures [grows-by-one] len(h.queue) == old(len(h.queue)) || len(h.queue) == old(len(h.queue)) + 1
+//@   ensures [conflict] implies(result != nil, len(h.queue) == old(len(h.queue)) && old(exists(k, 0, len(h.queue), h.queue[k].SequenceNumber == seq, trig(h.queue, k))))
+//@   ensures [keeps] forall(q, uint64, implies(old(exists(k, 0, len(h.queue), h.queue[k].SequenceNumber == q, trig(h.queue, k))), exists(k, 0, len(h.queue), h.queue[k].SequenceNumber == q, trig(h.queue, k))))
+//@   modifies h.queue, h.queue[*]
+//@ loop (h *connIDManager) addConnectionID #0
+//@   invariant 0 <= rangeidx && rangeidx <= len(h.queue) && len(h.queue) >= 1
+//@   invariant forall(k, 0, rangeidx, h.queue[k].SequenceNumber < seq, trig(h.queue, k))
+//@   modifies nothing
